@@ -97,6 +97,7 @@ type LayerSpec struct {
 	Stream bool `json:"stream"`
 	Via    int  `json:"via,omitempty"`  // server: 0 InterceptServer, 1 WithInterceptor
 	Mode   int  `json:"mode,omitempty"` // 0 pass, 1 short-circuit with error, 2 fail after handler, 3 rewrite
+	Foreign bool `json:"foreign,omitempty"` // client: the channel this layer wraps is itself wrapped by an application-defined WrappedClientConn first
 }
 
 type RPC struct {
